@@ -142,36 +142,36 @@ func (a *agg) evidence(cd *checkDef, id, tier string, seed uint64, wall float64,
 	}
 	sort.Strings(unk)
 	cov := map[string]any{
-		"evaluations":            a.runs,
-		"distinct_nontrivial":    len(a.distinct),
-		"rule":                   cd.rule,
-		"samples":                samples,
-		"nontrivial_runs":        a.nontrivial,
-		"dead_run_processes":     a.dead,
-		"runs_skipped_by_budget": a.skipped,
-		"runs_per_family":        a.families,
-		"simulated_seconds":      a.simSeconds,
-		"runs_per_hour":          perHour,
-		"seeds_per_hour":         perHour,
-		"controller_steps":       a.steps,
-		"sql_calls_delivered":    a.sql,
-		"zk_requests_delivered":  a.zk,
-		"state_handler_iterations": a.iters,
-		"faults_fired":           a.faults,
-		"probes":                 a.probes,
-		"distinct_abstract_states":      len(a.states),
-		"distinct_state_transitions":    len(a.transitions),
+		"evaluations":                a.runs,
+		"distinct_nontrivial":        len(a.distinct),
+		"rule":                       cd.rule,
+		"samples":                    samples,
+		"nontrivial_runs":            a.nontrivial,
+		"dead_run_processes":         a.dead,
+		"runs_skipped_by_budget":     a.skipped,
+		"runs_per_family":            a.families,
+		"simulated_seconds":          a.simSeconds,
+		"runs_per_hour":              perHour,
+		"seeds_per_hour":             perHour,
+		"controller_steps":           a.steps,
+		"sql_calls_delivered":        a.sql,
+		"zk_requests_delivered":      a.zk,
+		"state_handler_iterations":   a.iters,
+		"faults_fired":               a.faults,
+		"probes":                     a.probes,
+		"distinct_abstract_states":   len(a.states),
+		"distinct_state_transitions": len(a.transitions),
 		"distinct_manager_iteration_interleavings": len(a.inter),
-		"states":      len(a.states),
-		"transitions": len(a.transitions),
-		"unknown_statements": unk,
-		"determinism_smoke":  map[string]any{"seeds": detN, "processes_each": 2, "gomaxprocs": 1, "result": "identical trace hashes"},
+		"states":              len(a.states),
+		"transitions":         len(a.transitions),
+		"unknown_statements":  unk,
+		"determinism_smoke":   map[string]any{"seeds": detN, "processes_each": 2, "gomaxprocs": 1, "result": "identical trace hashes"},
 		"known_findings_seen": known,
 		"real_vs_stub": map[string]string{
 			"internal/app, internal/app/*, internal/mysql, internal/dcs/zk.go, internal/config, internal/log, internal/util": "real (map-range and sync.Mutex rewrites, hooks H1-H3)",
-			"go-zookeeper client, cenkalti/backoff, sqlx, database/sql, zerolog": "real",
-			"go-sql-driver wire protocol, MySQL servers, replication, semi-sync plugin, clients": "stub (fakemysql)",
-			"ZooKeeper ensemble, TCP, RandomHostProvider": "stub (fakezk, simnet, static host provider)",
+			"go-zookeeper client, cenkalti/backoff, sqlx, database/sql, zerolog":                                             "real",
+			"go-sql-driver wire protocol, MySQL servers, replication, semi-sync plugin, clients":                             "stub (fakemysql)",
+			"ZooKeeper ensemble, TCP, RandomHostProvider":                                                                    "stub (fakezk, simnet, static host provider)",
 		},
 	}
 	if rst != nil {
